@@ -280,7 +280,7 @@ func (r *runner) build(ev event, committed *snap) []*built {
 			}
 			gas := int64(0)
 			switch o.Kind {
-			case "transfer":
+			case "transfer", "transfer-zero":
 				var to keys.Address
 				if o.To == "F" {
 					to = r.fresh
@@ -288,7 +288,11 @@ func (r *runner) build(ev event, committed *snap) []*built {
 					to = r.acct(o.To).Addr
 				}
 				b.to, b.value = to, olt(3)
-				b.spec = xch.OLVMSend(r.w, from, to, n, harness.OLTUnits(3))
+				amt := harness.OLTUnits(3)
+				if o.Kind == "transfer-zero" {
+					b.value, amt = new(big.Int), zero
+				}
+				b.spec = xch.OLVMSend(r.w, from, to, n, amt)
 			case "wrong-chain":
 				to := r.acct(o.To).Addr
 				b.to, b.value = to, olt(3)
